@@ -228,6 +228,44 @@ theorem crop1 {α} (l : List α) (m0 m1 : Int) (h0 : 0 ≤ m0) (h01 : m0 ≤ m1)
     congr 1; omega
   · rw [if_neg (by omega), if_neg hk]
 
+theorem cropBound_range (dim dflt : Int) (p : Option Int) (hdim : 0 ≤ dim) :
+    0 ≤ cropBound dim dflt p ∧ cropBound dim dflt p ≤ dim := by
+  unfold cropBound; simp only; omega
+
+theorem pySliceOpt_map {α β} (f : α → β) (l : List α) (a b : Option Int) :
+    pySliceOpt (l.map f) a b = (pySliceOpt l a b).map f := by
+  unfold pySliceOpt pySlice
+  simp only [List.length_map, List.map_drop, List.map_take]
+
+theorem mem_of_mem_pySlice {α} {l : List α} {i j : Int} {x : α} (h : x ∈ pySlice l i j) : x ∈ l := by
+  unfold pySlice at h
+  exact List.mem_of_mem_take (List.mem_of_mem_drop h)
+
+theorem mem_of_mem_pySliceOpt {α} {l : List α} {a b : Option Int} {x : α} (h : x ∈ pySliceOpt l a b) :
+    x ∈ l := by
+  unfold pySliceOpt at h
+  exact mem_of_mem_pySlice h
+
+/-- A ROI with `max ≤ min` in either direction (all corners non-negative) shows no pixel. -/
+theorem apply_empty {α} (r : Roi) (raw : List (List α))
+    (h : r.xMax ≤ r.xMin ∨ r.yMax ≤ r.yMin) (h0 : 0 ≤ r.xMin ∧ 0 ≤ r.xMax ∧ 0 ≤ r.yMin ∧ 0 ≤ r.yMax) :
+    (r.apply raw).flatten = [] := by
+  unfold Roi.apply
+  rw [List.flatten_eq_nil_iff]
+  intro l hl
+  rw [List.mem_map] at hl
+  obtain ⟨row, hrow, rfl⟩ := hl
+  rcases h with h | h
+  · rw [pySlice_nonneg' _ _ _ h0.1 h0.2.1]
+    apply List.eq_nil_of_length_eq_zero
+    simp only [List.length_drop, List.length_take]; omega
+  · rw [pySlice_nonneg' _ _ _ h0.2.2.1 h0.2.2.2] at hrow
+    have : (List.drop r.yMin.toNat (List.take r.yMax.toNat raw)) = [] := by
+      apply List.eq_nil_of_length_eq_zero
+      simp only [List.length_drop, List.length_take]; omega
+    rw [this] at hrow
+    cases hrow
+
 /-! ### the heart of `slice_refines` -/
 
 theorem count_eq (m cn : Nat) (hm : 0 < m) (hcn : 0 < cn) :
